@@ -14,8 +14,10 @@ Lemma dwrite_at d pre old v :
   d_bytes d = pre ++ old -> d_pos d = length pre ->
   d_bytes (dwrite d v) = pre ++ v ++ skipn (length v) old /\ d_pos (dwrite d v) = (length pre + length v)%nat.
 Proof.
-  intros Hb Hp. unfold dwrite; cbn. rewrite Hb, Hp.
-  rewrite pad_id by (rewrite app_length; lia). split; [apply update_app_r|reflexivity].
+  intros Hb Hp. destruct v as [|x v].
+  - cbn [dwrite length app skipn]. rewrite Hb, Hp. split; [reflexivity|lia].
+  - unfold dwrite; cbn [d_bytes d_pos]. rewrite Hb, Hp.
+    rewrite pad_id by (rewrite app_length; lia). split; [apply update_app_r|reflexivity].
 Qed.
 
 (* ---- C09 invariant (grammar used by the writer: the directory is flushed before any entry) ---- *)
@@ -78,10 +80,14 @@ Proof.
   set (off := ds_sec s + 12 * ds_idx s) in *.
   assert (Hlen : length (update buf off e) = length buf) by (apply update_length; lia).
   split; [|split; [reflexivity|exact Hlen]].
-  constructor; cbn [ds_last ds_start d_pos d_bytes dseek dwrite].
+  assert (Hsl : slice (update buf off e) off 12 = e) by (pose proof (slice_update_same buf off e) as Hx; rewrite He in Hx; apply Hx; lia).
+  rewrite Hsl. destruct e as [|x0 e0] eqn:Ee; [discriminate He|]. rewrite <- Ee in *. clear Hsl.
+  assert (Hdw : forall d0, dwrite d0 e = {| d_bytes := update (pad (d_bytes d0) (d_pos d0)) (d_pos d0) e; d_pos := d_pos d0 + length e |})
+    by (intro d0; rewrite Ee; reflexivity).
+  rewrite Hdw.
+  constructor; cbn [ds_last ds_start d_pos d_bytes dseek].
   - rewrite Hlen. exact Hl.
-  - rewrite <- He at 1. rewrite slice_update_same by lia.
-    rewrite Hs. rewrite pad_id.
+  - rewrite Hs. rewrite pad_id.
     2:{ rewrite Hb, !app_length, firstn_length, Nat.min_l by lia. lia. }
     rewrite Hb. rewrite update_app_l. f_equal.
     rewrite update_app_in by (rewrite firstn_length, Nat.min_l by lia; lia). f_equal.
